@@ -12,6 +12,11 @@ ENG = {
 
 # id: (engine, category, technique, level text, level note, design ref)
 CHECKS = {
+ "C06": ("E3", "model_checking",
+   "exhaustive enumeration of a time-line product (scheme x tsa store in policy x verifyTimestamp x 3x3 certificate windows x 4 signing times x 4 expiries x 11 countersignature states forged by an offline RFC 3161 authority x 4 TSA revocation answers x format; quick: all cases with <= 5 deviations, thorough: full product) on the real verifier; reference clock model",
+   "Every case is verified by the real verifier under an all-log level (both results always reported) and under strict; the expiry and authentic-timestamp results and the strict verdict are compared with the reference clock model of DESIGN.md appendix A.2. All instants are >= 1 h away from the verification instant, so each case has one outcome whenever it runs.",
+   "Trusted: the clock model in harness/c06, lib/tsa (token encoder), lib/forge. Tokens of public TSAs, leap seconds and non-UTC encodings are outside the bound.",
+   "DESIGN.md section 5 C06, appendix A.2"),
  "C14": ("E1+E4", "model_checking",
    "stateless model checking of the implementation: the real FileCache.Set/Get + internal/file.WriteFile code (os import rewritten to a scheduling shim through go build -overlay) under a cooperative scheduler; DFS over all schedules of file-system steps with preemption bound 2/3 and unbounded with exact global-state pruning, crash choice at every writer step, torn (two-step) writes; porcupine linearizability check of every history against a per-URL register; plus kill injection on every file-system syscall of a real process (strace)",
    "Every interleaving (within the stated bounds: <= 3 threads, <= 2 operations each, <= 2 crashes) of the file-system steps the working tree actually performs is executed on a real tmpfs directory; every Get must be a miss or a complete bundle stored for that URL, every history must be linearizable (a killed Set may or may not have taken effect), a post-mortem reader and lister must see only misses, complete entries and non-key temporary files. E4 kills a real process on entry to each syscall and lets a fresh process read.",
